@@ -360,7 +360,8 @@ impl Ctx {
             if idx >= plan.cases {
                 break;
             }
-            if done % 16 == 0 && sub_start.elapsed().as_millis() as u64 > allowed_ms {
+            // under an interpreter a single case can take seconds: look at the clock before every case
+            if (cfg!(miri) || done % 16 == 0) && sub_start.elapsed().as_millis() as u64 > allowed_ms {
                 complete = false;
                 break;
             }
